@@ -1,5 +1,6 @@
 import DdsModel.Drv.Util
 import DdsModel.QuantFmt
+import DdsModel.QuantF32
 /-! Driver section of C12: same case lines as harness/src/c12.rs, prints `ok <len> <fnv64>`. -/
 namespace Dds.Drv.C12
 open Dds.Quant
@@ -130,6 +131,16 @@ def runC12 (line : String) : String :=
       let d := getDithering fl
       let (sh, sm) := if isBi f then (0, "2x2") else (1, "1x1")
       s!"sup dc={b2n d.1} da={b2n d.2} sh={sh} sm={sm} local=0"
+  | ["q32", name, vals] =>
+    -- the binary32 quantisers at the bit level (`QuantF32.field`), one code per input pattern
+    match (vals.splitOn ",").mapM (fun h => if h.length > 8 then none else hex? h) with
+    | some vs =>
+      if vs.isEmpty ∨ vs.length > 4096 ∨ ¬ ["n2", "n4", "n5", "n6", "n8", "n10", "n16", "s8"].contains name then "bad-case"
+      else
+        match vs.mapM (QuantF32.field name) with
+        | some cs => "q " ++ ",".intercalate (cs.map toString)
+        | none => "panic"
+    | none => "bad-case"
   | ["int", name, bitsS, fam, patS, wS, hS, startS] =>
     match formats.find? (·.name = name), nat? bitsS, nat? patS, nat? wS, nat? hS, nat? startS with
     | some f, some bits, some pat, some w, some h, some start =>
